@@ -73,9 +73,19 @@ def run_common(chk, tier, props, label):
         tlc.require_coverage(res, ["Encrypt", "Decrypt", "NoReply", "SetKeys"], "MC_Privacy " + cipher)
         chk.add_tlc(res, "MC_Privacy %s" % cipher)
     hs = histories(chk, thorough, 5 if thorough else 4)
-    std = scripts.std_cfgs()
+    std = scripts.all_cfgs()
     rec = trace.Recorder(label)
     runs = []
+    # users whose auth and privacy keys are of different key types: histories that install keys (set_keys) and those that do not
+    for mi, (cn, cfg) in enumerate(sorted(scripts.mixed_cfgs().items())):
+        scr = hs["des" if cfg.priv == "des" else "aes"]
+        withkeys = [s for s in scr if any(a["a"] == "set-keys" for a in s) and any(a["a"] == "send" for a in s)]
+        without = [s for s in scr if not any(a["a"] == "set-keys" for a in s) and sum(1 for a in s if a["a"] == "send") >= 2]
+        pick = withkeys[(mi + SEED) % 6::6] + without[(mi + SEED) % 15::15] if not thorough else withkeys + without
+        for si, s in enumerate(pick):
+            a, b = v3hist.run_history(rec, cfg, s, variant=si)
+            runs.append((a, b, dict(cfgname=cn, script=s)))
+            chk.case((cn, json.dumps(s, sort_keys=True)), nontrivial=True)
     for cipher, scr in hs.items():
         for ci, cn in enumerate(CIPHER_CFGS[cipher]):
             for si, s in enumerate(scr):
@@ -155,7 +165,7 @@ def replay(path):
     s = r["script"]
     if s and "times" in s[0]:
         s = [{"a": "send", "n": s[0]["n"]}] * s[0]["times"]
-    a, b = v3hist.run_history(rec, scripts.std_cfgs()[r["cfgname"]], s)
+    a, b = v3hist.run_history(rec, scripts.all_cfgs()[r["cfgname"]], s)
     v = trace.validate("TraceSession.tla", trace_cfg(PROPS), rec.close())
     if v["accepted"] and not v["fails"]:
         print("replay: accepted")
